@@ -154,3 +154,31 @@ def impl_load(case):
     except EXC as e:
         return exc_result(e)
     return ["ok", describe(im)]
+
+
+def impl_roundtrip(case):
+    """build by add calls, dumps, loads, describe, dumps again"""
+    import productmd.images as IM
+    im, pool, ids = build(case)
+    for v, a, i in case["ops"]:
+        try:
+            im.add(v, a, pool[i])
+        except EXC:
+            pass
+    placed = {v: {a: sorted(({f: getattr(o, f) for f in FIELDS} for o in cell), key=lambda d: str(d["path"]))
+                  for a, cell in arches.items()} for v, arches in im.images.items()}
+    try:
+        text = im.dumps()
+    except EXC as e:
+        return exc_result(e)
+    im2 = IM.Images()
+    try:
+        im2.loads(text)
+    except EXC as e:
+        return ["ok", [text, exc_result(e)], placed]
+    full, comp, dump = describe(im2)
+    try:
+        again = ["ok", im2.dumps()]
+    except EXC as e:
+        again = exc_result(e)
+    return ["ok", [text, ["ok", [[full, comp, dump], again]]], placed]
